@@ -150,15 +150,38 @@ Proof. unfold swf_txout. intros W. split_wf W. unfold ser_txout, de_txout. struc
   rewrite rt_asset by assumption. struct_go. rewrite rt_value by assumption. struct_go. rewrite rt_nonce by assumption. struct_go.
   rewrite rt_script. struct_go. rewrite rt_outwit by assumption. struct_go. now destruct o. Qed.
 
-Lemma rt_locktime hr l : locktime_to_consensus l < u32_bound -> de_locktime (view hr (ser_locktime l)) = Ok l.
-Proof. intros H. destruct l as [h|t]; cbn [locktime_to_consensus] in H; destruct hr; cbn -[de_u u32_bound]; ground_eval; cbn iota;
-  rewrite de_u_ok by exact H; reflexivity. Qed.
+Lemma rt_locktime hr l : locktime_wf l = true -> de_locktime (view hr (ser_locktime l)) = Ok l.
+Proof. intros W. assert (T : C20_LOCK_TIME_THRESHOLD <= u32_bound) by (vm_compute; discriminate).
+  destruct l as [h|t]; cbn [locktime_wf] in W; destruct hr; cbn -[de_u u32_bound de_height de_time]; ground_eval; cbn iota; unfold de_height, de_time.
+  1,2: apply N.ltb_lt in W; rewrite de_u_ok by lia; cbn [rbind]; destruct (N.ltb_spec h C20_LOCK_TIME_THRESHOLD); [reflexivity|lia].
+  all: apply andb_prop in W as [W1 W2]; apply N.leb_le in W1; apply N.ltb_lt in W2; rewrite de_u_ok by exact W2; cbn [rbind];
+       destruct (N.leb_spec C20_LOCK_TIME_THRESHOLD t); [reflexivity|lia]. Qed.
+(* what Deserialize hands out satisfies the type's invariant (F17 repaired) *)
+Lemma de_u_inv bound v n : de_u bound v = Ok n -> n < bound.
+Proof. destruct v; cbn; try discriminate. destruct (N.ltb_spec n0 bound); [|discriminate]. intros E. inversion E. now subst. Qed.
+Lemma de_height_wf v n : de_height v = Ok n -> n < C20_LOCK_TIME_THRESHOLD.
+Proof. unfold de_height. destruct (de_u u32_bound v) as [m|] eqn:E; cbn [rbind]; [|discriminate].
+  destruct (N.ltb_spec m C20_LOCK_TIME_THRESHOLD); [|discriminate]. intros H'. inversion H'. now subst. Qed.
+Lemma de_time_wf v n : de_time v = Ok n -> C20_LOCK_TIME_THRESHOLD <= n /\ n < u32_bound.
+Proof. unfold de_time. destruct (de_u u32_bound v) as [m|] eqn:E; cbn [rbind]; [|discriminate]. apply de_u_inv in E.
+  destruct (N.leb_spec C20_LOCK_TIME_THRESHOLD m); [|discriminate]. intros H'. inversion H'. subst. split; assumption. Qed.
+Lemma de_locktime_pick_wf k x l :
+  (if bytes_eqb k "Blocks"%lb then rbind (de_height x) (fun n => Ok (Blocks n))
+   else if bytes_eqb k "Seconds"%lb then rbind (de_time x) (fun n => Ok (Seconds n)) else Err "variant"%lb) = Ok l -> locktime_wf l = true.
+Proof. destruct (bytes_eqb k "Blocks"%lb).
+  - destruct (de_height x) as [n|] eqn:E; cbn [rbind]; [|discriminate]. intros H. inversion H. subst. cbn [locktime_wf]. apply N.ltb_lt. now apply de_height_wf in E.
+  - destruct (bytes_eqb k "Seconds"%lb); [|discriminate]. destruct (de_time x) as [n|] eqn:E; cbn [rbind]; [|discriminate]. intros H. inversion H. subst.
+    apply de_time_wf in E as [E1 E2]. cbn [locktime_wf]. apply andb_true_intro. split; [now apply N.leb_le|now apply N.ltb_lt]. Qed.
+Lemma de_locktime_wf v l : de_locktime v = Ok l -> locktime_wf l = true.
+Proof. unfold de_locktime. intros H. destruct v as [| | | | | | |s|s|m| | |]; try discriminate H.
+  - destruct s as [|a [|b [|c r]]]; try discriminate H; destruct a; try discriminate H. revert H. apply de_locktime_pick_wf.
+  - destruct m as [|[a b] [|c r]]; try discriminate H; destruct a; try discriminate H. revert H. apply de_locktime_pick_wf. Qed.
 Lemma locktime_consensus_rt n : locktime_to_consensus (locktime_from_consensus n) = n.
 Proof. unfold locktime_from_consensus. now destruct (n <? C20_LOCK_TIME_THRESHOLD). Qed.
 
 Lemma rt_tx hr t : swf_tx pt_ok t = true -> de_tx pt_ok hr (view hr (ser_tx hr t)) = Ok t.
 Proof. unfold swf_tx, u32_ok. intros W. split_wf W. apply N.ltb_lt in W, W2. unfold ser_tx, de_tx. struct_open. struct_go.
-  rewrite de_u_ok by exact W. struct_go. rewrite rt_locktime by (now rewrite locktime_consensus_rt). struct_go. rewrite locktime_consensus_rt.
+  rewrite de_u_ok by exact W. struct_go. rewrite rt_locktime by (now apply locktime_from_consensus_wf). struct_go. rewrite locktime_consensus_rt.
   unfold de_vec.
   rewrite (de_list_ok (de_txin pt_ok hr) (ser_txin hr) (view hr) (swf_txin pt_ok)) by (try exact W1; intros; now apply rt_txin). struct_go.
   rewrite (de_list_ok (de_txout pt_ok hr) (ser_txout hr) (view hr) (swf_txout pt_ok)) by (try exact W0; intros; now apply rt_txout). struct_go.
